@@ -184,8 +184,13 @@ impl GraphSnapshot for StorageSnapshot {
     }
 
     fn node_property(&self, iid: InternalNodeId, key: &str) -> Option<PropertyValue> {
-        if let Some(v) = self.inner.node_property(iid, key) {
-            return Some(convert_property_to_api(v));
+        match self.inner.lookup_node_property(iid, key) {
+            crate::read_path_overlay::RunLookup::Found(v) => {
+                return Some(convert_property_to_api(v));
+            }
+            // removed by a newer transaction: the stored (older) value must not come back
+            crate::read_path_overlay::RunLookup::Removed => return None,
+            crate::read_path_overlay::RunLookup::Unknown => {}
         }
 
         if self.inner.properties_root == 0 {
@@ -201,8 +206,12 @@ impl GraphSnapshot for StorageSnapshot {
 
     fn edge_property(&self, edge: EdgeKey, key: &str) -> Option<PropertyValue> {
         let snapshot_edge = api_edge_to_internal(edge);
-        if let Some(v) = self.inner.edge_property(snapshot_edge, key) {
-            return Some(convert_property_to_api(v));
+        match self.inner.lookup_edge_property(snapshot_edge, key) {
+            crate::read_path_overlay::RunLookup::Found(v) => {
+                return Some(convert_property_to_api(v));
+            }
+            crate::read_path_overlay::RunLookup::Removed => return None,
+            crate::read_path_overlay::RunLookup::Unknown => {}
         }
 
         if self.inner.properties_root == 0 {
@@ -222,7 +231,14 @@ impl GraphSnapshot for StorageSnapshot {
         if self.inner.properties_root != 0 {
             vread!("pager", self.pager);
             let pager = self.pager.read().unwrap();
-            extend_node_properties_from_store(&pager, self.inner.properties_root, iid, &mut props)?;
+            let removed = self.inner.removed_node_property_keys(iid);
+            extend_node_properties_from_store(
+                &pager,
+                self.inner.properties_root,
+                iid,
+                &mut props,
+                &removed,
+            )?;
         }
 
         if props.is_empty() {
@@ -239,7 +255,8 @@ impl GraphSnapshot for StorageSnapshot {
             .edge_properties(snapshot_edge)
             .unwrap_or_default();
 
-        if self.inner.properties_root != 0 {
+        let (removed, relationship_deleted) = self.inner.removed_edge_property_keys(snapshot_edge);
+        if self.inner.properties_root != 0 && !relationship_deleted {
             vread!("pager", self.pager);
             let pager = self.pager.read().unwrap();
             extend_edge_properties_from_store(
@@ -247,6 +264,7 @@ impl GraphSnapshot for StorageSnapshot {
                 self.inner.properties_root,
                 edge,
                 &mut props,
+                &removed,
             )?;
         }
 
